@@ -51,3 +51,10 @@ def Py.floorDivE (a b : Int) : Except PyErr Int :=
 /-- `a % b` raising ZeroDivisionError like Python. -/
 def Py.modE (a b : Int) : Except PyErr Int :=
   if b = 0 then .error .ZeroDivisionError else .ok (Int.fmod a b)
+
+instance {ε α : Type} [DecidableEq ε] [DecidableEq α] : DecidableEq (Except ε α) := fun a b =>
+  match a, b with
+  | .ok x, .ok y => if h : x = y then isTrue (by rw [h]) else isFalse (fun e => h (by injection e))
+  | .error x, .error y => if h : x = y then isTrue (by rw [h]) else isFalse (fun e => h (by injection e))
+  | .ok _, .error _ => isFalse (fun e => by cases e)
+  | .error _, .ok _ => isFalse (fun e => by cases e)
